@@ -413,7 +413,9 @@ class SocketServer:
                 try:
                     req_id, t = await asyncio.wait_for(reqs.get(), 0.1)
                 except asyncio.TimeoutError:
-                    if self.to_shutdown:
+                    if self.to_shutdown and reqs.empty():
+                        # (The timeout may have expired in the same iteration of the loop in which
+                        # a request was queued; that request still has to be answered.)
                         return
                     continue
                 try:
